@@ -32,6 +32,7 @@ type Val struct {
 	Fn   interface{} // *ssa.Function
 	Bind []*Val
 	Sort string // for KArr
+	ET   types.Type // element type of a typed ghost map (KArr)
 	Math bool   // spec-level mathematical integer
 }
 
